@@ -78,7 +78,8 @@ class C03(Spec):
                   "encoder of the preamble and by the decode-equality and refusal oracles.")
     rule = ("all shapes with <= 3 (quick) / <= 5 (thorough) components x kinds {mandatory, OPTIONAL, DEFAULT} x extension marker position "
             "(none or after component i) x all presence patterns (OPTIONAL present/absent, DEFAULT equal/unequal) x payload rotations over "
-            "{BOOLEAN, INTEGER(0..7), OCTET STRING SIZE(1), NULL, nested SEQUENCE, nested extensible SEQUENCE}; exhaustive. "
+            "{BOOLEAN, INTEGER(0..7), OCTET STRING SIZE(1), NULL, nested SEQUENCE, nested extensible SEQUENCE}; exhaustive; each followed by a sentinel value, "
+            "and (shapes of <= 2 components, and every all-absent value) also alone, ending exactly at the end of the reader's input. "
             "non-trivial = at least one OPTIONAL/DEFAULT component or an extension marker; distinct = distinct case line")
     assumptions_text = ["descriptor constants derived from the shape as the compiler does (checked separately by C08/C16)",
                         "a shape whose marker precedes the first component is not expressible in the crate (F16-2) and is not generated"]
@@ -116,6 +117,10 @@ class C03(Spec):
                             # followed by a sentinel value to observe exact consumption
                             L.append(U.line(1201, [2] + U.enc_ty(t) + U.enc_val(v) + U.enc_ty(("int", 0, (True, 0, True, 255, False))) +
                                             U.enc_val(("int", 0xA5))))
+                            # ... and alone, so that the message ends exactly where the reader's input ends (the preamble or an
+                            # absent component may be the very last bits of the buffer)
+                            if n <= 2 or all((k != "req") and (x is None or (k == "def" and x == SAMPLE[p_][1])) for k, x, p_ in zip(kinds, vals, pal)):
+                                L.append(U.line(1201, [1] + U.enc_ty(t) + U.enc_val(v)))
         return L
 
     def oracle(self, line, out, build):
@@ -140,7 +145,8 @@ class C03(Spec):
             return ("refusal_incomplete", "first addition absent, a later one present, but the encoder accepted")
         bit_len, nb = o[1], o[2]
         got = U_bits(o[3:3 + nb])[:bit_len]
-        want = ref_seq(t, v) + bits_int(0xA5, 8)
+        alone = a[1] == 1
+        want = ref_seq(t, v) + ([] if alone else bits_int(0xA5, 8))
         if got != want:
             return ("preamble_or_bits", "bits %s, reference %s" % ("".join(map(str, got[:48])), "".join(map(str, want[:48]))))
         j = 3 + nb
@@ -149,6 +155,10 @@ class C03(Spec):
         back, j = U.dec_val(o, j + 1)
         if back != v:
             return ("decode_differs", "decoded %s, wrote %s" % (str(back)[:80], str(v)[:80]))
+        if alone:
+            if o[j:j + 2] != [0, 0]:
+                return ("not_exact_consumption", "remaining %s after a message that ends the input" % (o[j:j + 2],))
+            return None
         if o[j] != 0:
             return ("decode_fails", "sentinel decode gave %s" % o[j:j + 2])
         s, j = U.dec_val(o, j + 1)
